@@ -34,7 +34,8 @@ CHECKS = {
          "and the fuel of the CAB stream feeder (two iterations per remaining block) always suffices, for every cabinet. The decoders' fuel is not yet proved sufficient. "
          "On the implementation every API call's executed control-flow edges are checked against a linear budget in input+output bytes (9x head-room over the measured maximum), with a watchdog, "
          "on malformed, shipped and pathological inputs; that found the cyclic-CHM hang repaired by f3ee904."
-         " Since then proved (C04Loops): with the fuel the entry points pass, the out-of-fuel outcome is unreachable for every input in the LZSS/SZDD/KWAJ, OAB, CHM (headers, fast_find, section 0), KWAJ LZH, MSZIP and LZX loops and the CAB stored-folder loop."),
+         " Since then proved (C04Loops): with the fuel the entry points pass, the out-of-fuel outcome is unreachable for every input in the LZSS/SZDD/KWAJ, OAB, CHM (headers, fast_find, section 0), KWAJ LZH, MSZIP and LZX loops and the CAB stored-folder loop."
+         " Quantum (C04Qtm): no hang over any finite source for every state a session begun by qtmd_init reaches and every request below 2^32 - 2^21; the bound is sharp (the model and qtmd.c both spin on a 2^32-byte request, observation O3; not reachable through cabd)."),
    note=PROOF_NOTE + " Wall-clock time is not covered; the budget constants are calibrated, not derived.", technique="Lean 4 termination measures + instrumented edge budget and watchdog on the implementation"),
  "C09": dict(category="proof",
    text=("Theorems on effect models of the SZDD, KWAJ and OAB decompressors over an instrumented mspack_system (ledger of live allocations and handles, fault plan, misuse monitor): for every client program (create; any list of decompress / open + extracts + close; destroy), every file content and every fault plan (any set of failing alloc/open/read/write/seek calls) the ledger after the program equals the ledger before it and no misuse is recorded "
@@ -86,11 +87,11 @@ CHECKS = {
          "and that in strict mode OK implies exactly the declared length; the counting law is proved for stored folders and is an explicit hypothesis for MSZIP/Quantum/LZX. "
          "CHM and OAB have no theorem yet. Everything is validated by the written-vs-declared oracle on the implementation (well-formed, malformed, fixtures, short writes, salvage) and model agreement."
          " CHM: for every file content and section-0 member extract writes at most the declared length, OK means exactly the declared bytes of the file (C07Chm)."
-         " The counting law itself is now a theorem for MSZIP and LZX (C07Decoders: every source, fuel, state, request; written <= asked, OK => exactly asked), so CAB written <= declared holds for stored/MSZIP/LZX folders, CHM compressed members and OAB files and patches with no decoder hypothesis; Quantum's law and the CAB read-error law remain hypotheses."),
+         " The counting law itself is now a theorem for MSZIP and LZX (C07Decoders: every source, fuel, state, request; written <= asked, OK => exactly asked), so CAB written <= declared holds for stored/MSZIP/LZX folders, CHM compressed members and OAB files and patches with no decoder hypothesis; Quantum's law is proved too (every method now), and strict-mode OK => exactly declared is unconditional for stored and MSZIP folders (joint decoder/feeder invariant); for LZX/Quantum folders the read-error law remains a hypothesis."),
    note=PROOF_NOTE, technique="Lean 4 theorems (case analysis over cabd_extract's phases + induction for the stored decoder) + written/declared/status oracle on the implementation"),
  "C08": dict(category="proof",
    text=("CAB: theorems that whenever the cached decoder is not re-usable for a request (other folder, backward seek, dead decoder) extract behaves exactly like a fresh instance, and C08_stored_any_order - for a stored folder ANY list of extract() calls on members inside the folder's data (forward through the cached decoder, backward through a rebuilt one, repeated) returns OK with exactly each member's bytes, the fresh-instance result. "
-         "MSZIP: the chunking law is a theorem (C08Mszip: a then b = a+b, same bytes and final state, both directions; any split; a decoder-level model of the re-use rule serves any request list in any order), lifted to cabd's decoder call; the walk through obtainDState/runPhases and the LZX/Quantum chunking laws are not proved. These are covered by the oracle: in random histories (repetition, interleaved archives, damaged folders, two cabinets with a damaged second one) over CAB sets and CHM files, "
+         "MSZIP: the chunking law is a theorem (C08Mszip: a then b = a+b, same bytes and final state, both directions; any split; a decoder-level model of the re-use rule serves any request list in any order), lifted to cabd's decoder call and through cabd_extract itself (C08MszipCab: any list of extract() calls on members of an MSZIP folder that decodes returns each member's slice of the one-shot result; single-cabinet folders unconditionally, multi-cabinet ones under a static fuel condition of the model); the LZX/Quantum chunking laws are not proved. These are covered by the oracle: in random histories (repetition, interleaved archives, damaged folders, two cabinets with a damaged second one) over CAB sets and CHM files, "
          "every call is compared with the same member on a fresh decompressor; plus model/implementation agreement per call."),
    note=PROOF_NOTE, technique="Lean 4 theorems (cache decision of cabd_extract; invariant over call sequences for stored folders) + history-vs-fresh oracle + differential runs"),
  "C02": dict(category="proof",
@@ -100,7 +101,7 @@ CHECKS = {
          "formats, the shipped crashers and guard-directed constructions, with model/implementation agreement on statuses. Found and repaired on the way: c13e5b8, 004b113, a66a89b."
          " Also: make_decode_table's acceptance rule (model Huff.accepts) is compared with the three instantiations on the ten shapes their callers use, and the same code-length vectors are fed through MSZIP and KWAJ LZH streams; found and repaired: 797f74d (use-after-free after joining a multi-folder cabinet with a PREV_AND_NEXT entry)."
          " Memory safety is now a theorem on the decoder models: the out-of-bounds (null-dereference, shift-width, division, uninitialised-table) outcomes are unreachable for every input and every sequence of calls in the LZSS, KWAJ header, KWAJ LZH, MSZIP, LZX (under LenStable and stream position < 2^31) and Quantum decoders and in the CHM layer (readHeaders, fastFind: no fault at all; extract: only what the LZX decoder passes on)."
-         " CAB lift (C02CabLift): the feeder's own faults are only the two null dereferences of cabd_sys_read_block and none while it is live; Quantum/MSZIP folders have no oob/uninit/divZero/shiftWidth for every feeder state, stored folders no fault for any call sequence; the length announced to LZX is a read-closed invariant (LenStable over all feeder states is false, so the LZX lift is _partial: stated for the feeder with filtered announcements)."),
+         " CAB lift (C02CabLift): the feeder's own faults are only the two null dereferences of cabd_sys_read_block and none while it is live; Quantum/MSZIP folders have no oob/uninit/divZero/shiftWidth for every feeder state, stored folders no fault for any call sequence; the length announced to LZX is a read-closed invariant (LenStable over all feeder states is false, so the LZX lift is _partial: stated for the feeder with filtered announcements). MSZIP folders: liveness threaded through the decoder (C02CabLift2) - no fault of any kind for any call sequence from a fresh folder state, no source hypothesis."),
    note=PROOF_NOTE + " Sanitizers see heap/stack/global object bounds, not sub-object overflows inside one allocation.",
    technique="Lean 4 theorems on the block reader/feeder model + sanitizer-instrumented differential fuzzing of malformed inputs"),
  "C01": dict(category="proof",
